@@ -33,7 +33,7 @@ pub struct Case {
 }
 
 /// exact variance of round(X), X ~ Normal(0, s) truncated to |X| <= t (numerical integration over the integer cells)
-fn moments_rounded_truncated(s: f64, t: f64) -> (f64, f64) {
+pub fn moments_rounded_truncated(s: f64, t: f64) -> (f64, f64) {
     fn phi(x: f64) -> f64 {
         0.5 * (1.0 + erf(x / std::f64::consts::SQRT_2))
     }
@@ -288,10 +288,14 @@ pub fn run_all(ctx: &Ctx) {
     let t = ctx.tier;
     TARGET_THOROUGH.store(t == pzv_common::driver::Tier::Thorough, std::sync::atomic::Ordering::Relaxed);
     ctx.run_sub("noise_mask_seed_separation", t.pick(192, 1_600), 64, strategy, test);
+    crate::c06b::run_all(ctx);
 }
 
 pub fn replay(ctx: &Ctx, sub: &str, case: &serde_json::Value) -> i32 {
+    if sub == "other_routines_noise_mask_seeds" {
+        return ctx.replay_case::<crate::c06b::Case, _>(sub, case, crate::c06b::test);
+    }
     ctx.replay_case::<Case, _>(sub, case, test)
 }
 
-pub const RULE: &str = "cases = (backend, layout in {GLWE, GGLWE, GGSW, switching key, automorphism key, tensor key}, standard or seed-compressed routine, N 128..512, encryptions pooled until >= 2^15 (quick) / 2^17 (thorough) error samples per statistic, radix, precision residue, ranks, dnum, dsize, secret distribution, three (sigma, bound) settings, generated seeds); each case encrypts the object five times under controlled seed changes. Checks: determinism; masks identical under other error seed / other secret+plaintext, different under other mask seed; e1-e2 (exact phases) integral on the documented noise limb, |e1-e2| <= 2 round(bound*scale), second moment inside a two-sided Bernstein band (alpha=2^-54, exact variance of the squared difference from numerical integration) around 2*Var(round(TruncNormal)); mask digits in balanced range, every bit within the Hoeffding band (alpha=2^-54), extremes reached. non-trivial = statistics evaluated and (k % radix != 0 or rank >= 2 or matrix type).";
+pub const RULE: &str = "cases = (backend, layout in {GLWE, GGLWE, GGSW, switching key, automorphism key, tensor key}, standard or seed-compressed routine, N 128..512, encryptions pooled until >= 2^15 (quick) / 2^17 (thorough) error samples per statistic, radix, precision residue, ranks, dnum, dsize, secret distribution, three (sigma, bound) settings, generated seeds); each case encrypts the object five times under controlled seed changes. Checks: determinism; masks identical under other error seed / other secret+plaintext, different under other mask seed; e1-e2 (exact phases) integral on the documented noise limb, |e1-e2| <= 2 round(bound*scale), second moment inside a two-sided Bernstein band (alpha=2^-54, exact variance of the squared difference from numerical integration) around 2*Var(round(TruncNormal)); mask digits in balanced range, every bit within the Hoeffding band (alpha=2^-54), extremes reached. non-trivial = statistics evaluated and (k % radix != 0 or rank >= 2 or matrix type). Sub-check other_routines_noise_mask_seeds: the same determinism / seed-separation / noise / mask statistics for glwe_public_key_generate, glwe_encrypt_pk (every column carries an error term; the ephemeral-secret seed plays the role of the mask seed), lwe_encrypt_sk (one error sample per encryption, pooled over >= 2^15 encryptions), gglwe_to_ggsw_key, lwe_switching_key, lwe_to_glwe_key, glwe_to_lwe_key, blind_rotation_key (CGGI; binary block / probability / fixed-weight LWE secrets) and the circuit-bootstrapping key bundle (blind-rotation key + automorphism keys + GGLWE-to-GGSW key); error differences are taken directly between the bodies of two encryptions with identical masks; determinism is judged on the serialised bytes of two freshly allocated objects.";
